@@ -2,10 +2,32 @@
 use crate::report::{finish, Ctx};
 use serde_json::Value;
 
+pub mod c01;
+pub mod c03;
+pub mod c05;
+pub mod c06;
+pub mod c08;
+pub mod c08_fn;
+pub mod c16;
+pub mod c16_fn;
+pub mod c19;
+pub mod c19_fn;
+pub mod c12;
+pub mod c12_fn;
+pub mod c13;
 pub mod c09;
 
 pub fn run(id: &str, ctx: &Ctx) -> i32 {
     match id {
+        "C01" => finish(ctx, c01::run(ctx), Some(&c01::replay)),
+        "C03" => finish(ctx, c03::run(ctx), Some(&c03::replay)),
+        "C05" => finish(ctx, c05::run(ctx), Some(&c05::replay)),
+        "C06" => finish(ctx, c06::run(ctx), Some(&c06::replay)),
+        "C08" => finish(ctx, c08::run(ctx), Some(&c08::replay)),
+        "C16" => finish(ctx, c16::run(ctx), Some(&c16::replay)),
+        "C19" => finish(ctx, c19::run(ctx), Some(&c19::replay)),
+        "C12" => finish(ctx, c12::run(ctx), Some(&c12::replay)),
+        "C13" => finish(ctx, c13::run(ctx), Some(&c13::replay)),
         "C09" => finish(ctx, c09::run(ctx), Some(&c09::replay)),
         _ => {
             eprintln!("unknown or unbuilt check {id}");
@@ -16,6 +38,15 @@ pub fn run(id: &str, ctx: &Ctx) -> i32 {
 
 pub fn replay(id: &str, case: &Value) -> Result<(), String> {
     match id {
+        "C01" => c01::replay(case),
+        "C03" => c03::replay(case),
+        "C05" => c05::replay(case),
+        "C06" => c06::replay(case),
+        "C08" => c08::replay(case),
+        "C16" => c16::replay(case),
+        "C19" => c19::replay(case),
+        "C12" => c12::replay(case),
+        "C13" => c13::replay(case),
         "C09" => c09::replay(case),
         _ => Err(format!("no replay for {id}")),
     }
